@@ -4,6 +4,7 @@ import os, sys, re
 sys.path.insert(0, os.path.dirname(os.path.dirname(os.path.abspath(__file__))))
 import z3
 from harness.common import run_check, expectation
+import checks.c14 as c14mod        # (rebuild obligations of from_config and their native expectation)
 from checks.serverfam import *
 from checks import fromconfig as FC
 from checks import hobl
@@ -106,6 +107,8 @@ def main(chk):
     import checks.c07 as c07
     for roles, banned, target in (((0, 1), [1], 1), ((0, 1, 1), [1, 2], 2), ((1, 1), [0, 1], 0)):
         c07.o2_try_unban(chk, prog, roles, banned, target, prop='C04')
+    # one bb8 pool per (pool, user, server) is what makes pool_size a bound: a reload must KEEP an unchanged pool (also when auth_query is configured)
+    c14mod.o2_rebuild(chk, prog, 'auth-query', props=('C04',))
     hobl.handle_obligations(chk, prog, {'C04'}, ['simple', 'session', 'extended', 'named', 'malformed', 'cuts', 'pause', 'status', 'plugins', 'copy', 'timeouts', 'drops', 'checkout-failures'])
 
 
